@@ -225,7 +225,7 @@ fn perform(thread: &RootedThread, op: &Value, id: &str, concurrent: bool, chan: 
             let Some(arg) = arg else { return "nop".to_string() };
             let rounds = op["rounds"].as_u64().unwrap_or(10);
             let src = format!(
-                "let array = import! std.array.prim\n\\a -> (rec let loop r acc = if r #Int< 1 then acc else loop (r #Int- 1) (acc #Int+ array.len a #Int+ array.index a 1) in loop {} 0)\n",
+                "let array = import! std.array.prim\nrec let cnt n = if n #Int< 1 then 0 else 1 #Int+ cnt (n #Int- 1)\n\\a -> (rec let loop r acc = if r #Int< 1 then acc else loop (r #Int- 1) (acc #Int+ array.len a #Int+ cnt 3 #Int+ array.index a 1) in loop {} 0)\n",
                 rounds
             );
             let fname = format!("ra_{}", id);
@@ -258,9 +258,14 @@ fn perform(thread: &RootedThread, op: &Value, id: &str, concurrent: bool, chan: 
             let src = if work > 0 {
                 // the received value lives in the heap of the channel's owner; after the recv it is
                 // referenced from this thread's stack only, for the whole loop
+                // (with a gate: `sim.fire` tells the harness that the value is on this stack now)
+                let (fire_ok, fire_err) = match op["gate"].as_u64() {
+                    Some(g) => (format!("(sim.fire {} #Int- {})", g, g), format!("if sim.fire {} #Int< 0 then Err e else Err e", g)),
+                    None => ("0".to_string(), "Err e".to_string()),
+                };
                 format!(
-                    "let ch = import! std.channel.prim\nlet io = import! std.io.prim\nlet array = import! std.array.prim\nlet {{ Result }} = import! std.types\nrec let loop r acc a = if r #Int< 1 then acc else loop (r #Int- 1) (acc #Int+ array.len a #Int+ array.index a 0) a\nlet work x =\n    match x with\n    | Ok a -> if (loop {} 0 a) #Int< 0 then Err () else Ok a\n    | Err e -> Err e\n\\r -> io.flat_map (\\x -> io.wrap (work x)) (ch.recv r)\n",
-                    work
+                    "let ch = import! std.channel.prim\nlet io = import! std.io.prim\nlet sim = import! sim\nlet array = import! std.array.prim\nlet {{ Result }} = import! std.types\nrec let cnt n = if n #Int< 1 then 0 else 1 #Int+ cnt (n #Int- 1)\nrec let loop r acc a = if r #Int< 1 then acc else loop (r #Int- 1) (acc #Int+ array.len a #Int+ cnt 3 #Int+ array.index a 0) a\nlet work x =\n    match x with\n    | Ok a -> if (loop {} {} a) #Int< 0 then Err () else Ok a\n    | Err e -> {}\n\\r -> io.flat_map (\\x -> io.wrap (work x)) (ch.recv r)\n",
+                    work, fire_ok, fire_err
                 )
             } else {
                 RECV_SRC.to_string()
@@ -405,16 +410,22 @@ impl Engine for C14 {
         // thread runs the sender
         let channel = rng.chance(1, 2) || root_scenario;
         let mut prefill: Vec<Value> = Vec::new();
+        // gated: the root only starts once every child has its received value on its stack (the
+        // window in which a received value is referenced from nowhere, between the pop from the
+        // queue inside `recv` and the push on the receiver's stack, is a recorded finding of its own
+        // and is only explored by the ungated variant)
+        let gated = root_scenario && rng.chance(2, 3);
         if root_scenario {
             // values already queued in the root's heap; children receive them and keep working on
             // them: after the recv only the child's stack refers to the value
-            for k in 0..2 + rng.below(4) {
+            for k in 0..threads.len() + rng.below(4) {
                 prefill.push(json!([99, k as u64 + 1, rng.below(1000) as u64]));
             }
-            for th in threads.iter_mut().skip(1) {
+            for (t, th) in threads.iter_mut().enumerate().skip(1) {
                 let ops = th["ops"].as_array_mut().unwrap();
-                let at = rng.below(ops.len() + 1);
-                ops.insert(at, json!({ "op": "recv", "n": 1 + rng.below(2), "work": *rng.pick(&[50u64, 300, 1200]) }));
+                let at = if gated { 0 } else { rng.below(ops.len() + 1) };
+                let n = if gated { 1 } else { 1 + rng.below(2) };
+                ops.insert(at, json!({ "op": "recv", "n": n, "work": *rng.pick(&[20u64, 100, 400]), "gate": if gated { json!(t) } else { Value::Null } }));
             }
         }
         if channel {
@@ -429,7 +440,7 @@ impl Engine for C14 {
             for (t, th) in threads.iter_mut().enumerate() {
                 let n = rng.below(3);
                 for _ in 0..n {
-                    let op = if rng.chance(3, 5) {
+                    let op = if gated || rng.chance(3, 5) {
                         let vals: Vec<Value> = (0..1 + rng.below(3))
                             .map(|_| {
                                 seq += 1;
@@ -465,6 +476,7 @@ impl Engine for C14 {
             "prelude": false,
             "channel": channel,
             "prefill": prefill,
+            "gated": gated,
             "modules": modules,
             "threads": threads,
             "gc": GcPolicy::generate(rng).to_json(),
@@ -516,6 +528,7 @@ impl Engine for C14 {
         // ---- concurrent phase
         gluon_vm::verif::reset_heap_ids();
         let vm = build_vm(w)?;
+        externs::reset_events();
         let chan = if w["channel"].as_bool().unwrap_or(false) { Some(Arc::new(make_channel(&vm)?)) } else { None };
         let mut prefilled: Vec<String> = Vec::new();
         if let Some(chan) = &chan {
@@ -570,6 +583,15 @@ impl Engine for C14 {
             let ops: Vec<Value> = th["ops"].as_array().cloned().unwrap_or_default();
             let results = results.clone();
             let chan = chan.clone();
+            let gates: Vec<i64> = if w["gated"].as_bool().unwrap_or(false) && th["gthread"].as_str() == Some("root") {
+                threads
+                    .iter()
+                    .flat_map(|th| th["ops"].as_array().cloned().unwrap_or_default())
+                    .filter_map(|op| op["gate"].as_i64())
+                    .collect()
+            } else {
+                Vec::new()
+            };
             // values of the root's heap that a child is going to use
             let mut args: BTreeMap<usize, Val> = BTreeMap::new();
             for (k, op) in ops.iter().enumerate() {
@@ -579,6 +601,9 @@ impl Engine for C14 {
                 }
             }
             sched::spawn(&format!("L{}", t), move || {
+                for g in gates {
+                    sched::block_on(externs::wait_event(g));
+                }
                 for (k, op) in ops.iter().enumerate() {
                     let id = format!("{}_{}", t, k);
                     let out = perform(&gthread, op, &id, true, chan.as_deref(), args.remove(&k));
@@ -593,7 +618,15 @@ impl Engine for C14 {
         }
         run::count("root_values_used_by_children", root_values as u64);
         run::set_gc(GcPolicy::from_json(&w["gc"]), true);
-        run::set_context("concurrent phase");
+        let ungated_receivers = root_runs
+            && !w["gated"].as_bool().unwrap_or(false)
+            && threads.iter().any(|th| th["ops"].as_array().map_or(false, |o| o.iter().any(|op| op["op"].as_str() == Some("recv"))));
+        if ungated_receivers {
+            // recorded finding, see known_findings.json
+            run::set_context("{{value in flight between channel recv and the receiver's stack while the channel's owner collects}} concurrent phase");
+        } else {
+            run::set_context("concurrent phase");
+        }
         let ok = sched::run_all();
         run::gc_active(false);
         if !ok {
